@@ -3,6 +3,161 @@
 // Contracts for the verification harness in /verif (comment-only; no declarations).
 package customize
 
+//@ entry-invariant [C15,C13] *v1.CustomizeHookResponse: v != nil
+
+//@ pred validRM0(rm) = rm != nil && rm.customizeCache != nil && rm.customizeCache.cache != nil && rm.dynClient != nil && rm.dynClient.resources != nil && rm.dynClient.dc != nil && rm.relatedInformers != nil && rm.enqueueParent != nil
+//@ pred validRMInf(rm) = forall k schema.GroupVersionResource :: (has(rm.relatedInformers, k) ==> validInformer(rm.relatedInformers[k])) && (has(rm.parentInformers, k) ==> validInformer(rm.parentInformers[k]))
+//@ pred validRM(rm) = validRM0(rm) && factoryInv(rm.dynInformers) && validRMInf(rm)
+
+//@ func determineSelectionType(relatedRule) (t, err)
+//@   requires relatedRule != nil
+//@   safety C13
+//@   let hasSel = relatedRule.LabelSelector != nil
+//@   let hasNN = len(relatedRule.Namespace) != 0 || len(relatedRule.Names) != 0
+//@   ensures [C15] hasSel && hasNN ==> t == invalid && err != nil
+//@   ensures [C15] !hasSel && hasNN ==> t == selectByNamespaceAndNames && err == nil
+//@   ensures [C15] !hasNN ==> t == selectByLabels && err == nil
+
+//@ func stringInArray(toMatch, array) (r)
+//@   safety C13
+//@   invariant loop 1 [C15]: forall j int :: 0 <= j && j <= rangeindex ==> array[j] != toMatch
+//@   ensures [C15] r == (exists j int :: 0 <= j && j < len(array) && array[j] == toMatch)
+
+//@ func matchesRelatedRule(parentIsNamespaced, parent, related, relatedRule, relatedRuleKind) (m, err)
+//@   requires parent != nil && related != nil && relatedRule != nil
+//@   safety C13
+//@   let kindOK = related.GetAPIVersion() == relatedRule.ResourceRule.APIVersion && related.GetKind() == relatedRuleKind
+//@   let hasSel = relatedRule.LabelSelector != nil
+//@   let hasNN = len(relatedRule.Namespace) != 0 || len(relatedRule.Names) != 0
+//@   ensures [C15,C14] !kindOK ==> !m && err == nil
+//@   ensures [C15,C14] kindOK && hasSel && hasNN ==> !m && err != nil
+//@   ensures [C15,C14] kindOK && !hasSel && hasNN && parentIsNamespaced && len(relatedRule.Namespace) != 0 && parent.GetNamespace() != relatedRule.Namespace ==> !m && err != nil
+//@   ensures [C15,C14] kindOK && !hasSel && hasNN && err == nil ==> m == ((ite(parentIsNamespaced, parent.GetNamespace() == related.GetNamespace(), len(relatedRule.Namespace) == 0 || related.GetNamespace() == relatedRule.Namespace)) && (len(relatedRule.Names) == 0 || (exists j int :: 0 <= j && j < len(relatedRule.Names) && relatedRule.Names[j] == related.GetName())))
+//@   ensures [C15,C14] kindOK && !hasNN && !hasSel && err == nil ==> m
+
+//@ func Manager.getCustomizeHookResponse(rm, parent) (resp, err)
+//@   requires validRM(rm) && rm.customizeHook != nil && rm.customizeHook.IsEnabled() && parent != nil
+//@   safety C13
+//@   bind call Cache.Get: cached, found
+//@   bind call Call: hookErr
+//@   at Call(h, req, out) [C15]: called(Cache.Get) && !found && h == rm.customizeHook
+//@   at Set(c, k, v) [C15]: called(Call) && hookErr == nil && k.uid == parent.GetUID() && k.parentGeneration == parent.GetGeneration()
+//@   ensures [C15] found ==> resp == cached && err == nil && !called(Call)
+//@   ensures [C15] !found && err == nil ==> count(Call) == 1 && resp != nil
+//@   ensures [C15,C13] err != nil ==> resp == nil
+//@   ensures [C15,C13] err == nil ==> resp != nil
+//@   writes [C17] fresh
+
+//@ func Manager.IsEnabled(rm) (r)
+//@   requires rm != nil
+//@   safety C13
+//@   ensures [C15,C13] r ==> rm.customizeHook != nil && rm.customizeHook.IsEnabled()
+//@   ensures [C15] rm.customizeHook != nil && rm.customizeHook.IsEnabled() ==> r
+
+//@ func toSelector(labelSelector) (s, err)
+//@   safety C13
+//@   ensures [C15] err == nil ==> s != nil
+//@   ensures [C15] labelSelector == nil ==> err == nil && matchesAll(s)
+
+//@ func Manager.getRelatedClient(rm, apiVersion, resource) (client, informer, err)
+//@   requires validRM(rm)
+//@   safety C13
+//@   at InformerMap.Set(m, k, v) [C14,C15]: m == rm.relatedInformers && called(informerWrapper.AddEventHandler) && v != nil
+//@   ensures [C15,C13] err == nil ==> validClient(client) && validInformer(informer)
+//@   ensures [C15,C13] err != nil ==> client == nil && informer == nil
+//@   ensures [C15,C13] validRM(rm)
+
 //@ func Manager.GetRelatedObjects(rm, parent) (r, err)
-//@   requires rm != nil && parent != nil
+//@   requires validRM(rm) && parent != nil
+//@   safety C13
+//@   bind call Manager.getCustomizeHookResponse: resp, herr
+//@   bind call Manager.getRelatedClient: rclient, rinformer, rerr
+//@   at Manager.getCustomizeHookResponse(m, p) [C15]: m == rm && p == parent && count(Manager.getCustomizeHookResponse) == 1
+//@   at UniformObjectMap.InsertAll(m, p, objs) [C15,C03]: p == parent
+//@   at UniformObjectMap.Insert(m, p, o) [C15,C03]: p == parent && (exists j int :: 0 <= j && j < len(cur(relatedRule).Names) && cur(relatedRule).Names[j] == o.GetName())
+//@   at NamespaceLister.List(l, sel) [C15,C03]: listerNs(l) == ite(cur(parentResource).Namespaced, parent.GetNamespace(), cur(relatedRule).Namespace) && (cur(relatedRule).LabelSelector == nil ==> matchesAll(sel))
+//@   at Lister.List(l, sel) [C15,C03]: (cur(parentResource).Namespaced ==> cur(relatedRule).LabelSelector == nil && len(cur(relatedRule).Namespace) == 0) && (cur(relatedRule).LabelSelector == nil ==> matchesAll(sel))
+//@   pred ruleOK(rule, namespaced, pns) = rule == nil || (!(rule.LabelSelector != nil && (len(rule.Namespace) != 0 || len(rule.Names) != 0)) && !(namespaced && rule.LabelSelector == nil && len(rule.Namespace) != 0 && rule.Namespace != pns))
+//@   invariant loop 1 [C15]: forall j int :: 0 <= j && j <= rangeindex ==> ruleOK(resp.RelatedResourceRules[j], parentResource.Namespaced, parent.GetNamespace())
+//@   ensures [C15] err == nil && called(Manager.getCustomizeHookResponse) ==> (forall j int :: 0 <= j && j < len(resp.RelatedResourceRules) ==> ruleOK(resp.RelatedResourceRules[j], parentResource.Namespaced, parent.GetNamespace()))
+//@   invariant loop 1 [C15,C13]: validRM(rm) && childMap != nil && noNilChildren(childMap) && count(Manager.getCustomizeHookResponse) == 1
+//@   invariant loop 2 [C15,C13]: validRM(rm) && childMap != nil && noNilChildren(childMap) && count(Manager.getCustomizeHookResponse) == 1
+//@   ensures [C15] !(rm.customizeHook != nil && rm.customizeHook.IsEnabled()) ==> err == nil && r != nil && len(r) == 0 && !called(Manager.getCustomizeHookResponse)
+//@   ensures [C15,C13] err == nil ==> r != nil && noNilChildren(r)
+//@   ensures [C15,C13] validRM(rm)
 //@   writes-assumed fresh, rm
+
+// Which parents a changed related object wakes: every (parent, non-nil rule, related) triple is put to
+// matchesRelatedRule with the parent's own scope and the rule's kind, and what is returned are parents
+// from the parent informers.
+//@ func Manager.findRelatedParents(rm, relatedSlice) (r)
+//@   requires validRM(rm) && rm.customizeHook != nil && rm.customizeHook.IsEnabled() && (forall j int :: 0 <= j && j < len(relatedSlice) ==> relatedSlice[j] != nil)
+//@   safety C13
+//@   bind call Clientset.Resource: rrc, rrcErr
+//@   at matchesRelatedRule(pns, p, rel, rule, kind) [C14,C15]: p == cur(parent) && rule == cur(relatedRule) && rel == cur(related) && pns == cur(parentResource).Namespaced && kind == rrc.Kind
+//@   at Manager.getCustomizeHookResponse(m, p) [C15]: m == rm && p == cur(parent) && cached(p)
+//@   invariant loop 1 [C14,C13]: validRM(rm) && (forall j int :: 0 <= j && j < len(matchingParents) ==> matchingParents[j] != nil && cached(matchingParents[j]))
+//@   invariant loop 2 [C14,C13]: validRM(rm) && (forall j int :: 0 <= j && j < len(matchingParents) ==> matchingParents[j] != nil && cached(matchingParents[j]))
+//@   invariant loop 3 [C14,C13]: validRM(rm) && (forall j int :: 0 <= j && j < len(matchingParents) ==> matchingParents[j] != nil && cached(matchingParents[j]))
+//@   invariant loop 4 [C14,C13]: validRM(rm) && (forall j int :: 0 <= j && j < len(matchingParents) ==> matchingParents[j] != nil && cached(matchingParents[j]))
+//@   ensures [C14,C13] forall j int :: 0 <= j && j < len(r) ==> r[j] != nil && cached(r[j])
+//@   writes [C17] fresh
+
+//@ func Manager.notifyRelatedParents(rm, related) ()
+//@   requires validRM(rm) && rm.customizeHook != nil && rm.customizeHook.IsEnabled() && (forall j int :: 0 <= j && j < len(related) ==> related[j] != nil)
+//@   safety C13
+//@   at Manager.findRelatedParents(m, rs) [C14,C15]: m == rm && rs == related
+//@   ensures [C14,C15] count(Manager.findRelatedParents) == 1
+
+//@ func Manager.onRelatedUpdate(rm, old, cur) ()
+//@   requires validRM(rm) && rm.customizeHook != nil && rm.customizeHook.IsEnabled()
+//@   requires typeis(old, *unstructured.Unstructured) && unbox(old, *unstructured.Unstructured) != nil
+//@   requires typeis(cur, *unstructured.Unstructured) && unbox(cur, *unstructured.Unstructured) != nil
+//@   safety C13
+//@   let o = unbox(old, *unstructured.Unstructured)
+//@   let c = unbox(cur, *unstructured.Unstructured)
+//@   at Manager.notifyRelatedParents(m, rs) [C14,C15]: m == rm && len(rs) == 2 && rs[0] == o && rs[1] == c
+//@   ensures [C14,C15] o.GetResourceVersion() != c.GetResourceVersion() ==> count(Manager.notifyRelatedParents) == 1
+
+//@ func Manager.onRelatedAdd(rm, obj) ()
+//@   requires validRM(rm) && rm.customizeHook != nil && rm.customizeHook.IsEnabled()
+//@   requires typeis(obj, *unstructured.Unstructured) && unbox(obj, *unstructured.Unstructured) != nil
+//@   safety C13
+//@   at Manager.notifyRelatedParents(m, rs) [C14,C15]: m == rm && len(rs) == 1 && rs[0] == unbox(obj, *unstructured.Unstructured)
+//@   at Manager.onRelatedDelete(m, o) [C14,C15]: m == rm && o == obj
+//@   ensures [C14,C15] called(Manager.notifyRelatedParents) || called(Manager.onRelatedDelete)
+
+//@ func Manager.onRelatedDelete(rm, obj) ()
+//@   requires validRM(rm) && rm.customizeHook != nil && rm.customizeHook.IsEnabled()
+//@   requires typeis(obj, *unstructured.Unstructured) ==> unbox(obj, *unstructured.Unstructured) != nil
+//@   requires typeis(obj, cache.DeletedFinalStateUnknown) && typeis(unbox(obj, cache.DeletedFinalStateUnknown).Obj, *unstructured.Unstructured) ==> unbox(unbox(obj, cache.DeletedFinalStateUnknown).Obj, *unstructured.Unstructured) != nil
+//@   safety C13
+//@   at Manager.notifyRelatedParents(m, rs) [C14,C15]: m == rm && len(rs) == 1 && rs[0] != nil && (typeis(obj, *unstructured.Unstructured) ==> rs[0] == unbox(obj, *unstructured.Unstructured)) && (typeis(obj, cache.DeletedFinalStateUnknown) ==> rs[0] == unbox(unbox(obj, cache.DeletedFinalStateUnknown).Obj, *unstructured.Unstructured))
+//@   ensures [C14,C15] typeis(obj, *unstructured.Unstructured) ==> count(Manager.notifyRelatedParents) == 1
+//@   ensures [C14,C15] typeis(obj, cache.DeletedFinalStateUnknown) && typeis(unbox(obj, cache.DeletedFinalStateUnknown).Obj, *unstructured.Unstructured) ==> count(Manager.notifyRelatedParents) == 1
+
+//@ pred handlersOK(iw) = forall j int :: 0 <= j && j < len(iw.sharedResourceInformer.eventHandlers.handlers[iw]) ==> iw.sharedResourceInformer.eventHandlers.handlers[iw][j] != nil
+
+// Stop releases every related informer this manager subscribed to: handlers removed, then closed.
+//@ func Manager.Stop(rm) ()
+//@   requires validRM(rm)
+//@   requires forall k schema.GroupVersionResource :: has(rm.relatedInformers, k) ==> handlersOK(rm.relatedInformers[k].informerWrapper)
+//@   safety C13
+//@   at informerWrapper.RemoveEventHandlers(iw) [C20,C18]: iw == cur(informer).informerWrapper
+//@   at ResourceInformer.Close(ri) [C20,C18]: ri == cur(informer) && count(ResourceInformer.Close) == count(informerWrapper.RemoveEventHandlers)
+//@   invariant loop 1 [C20,C18]: count(ResourceInformer.Close) == count(informerWrapper.RemoveEventHandlers)
+//@   invariant loop 1 [C20,C18]: forall k schema.GroupVersionResource :: has(rm.relatedInformers, k) && !visited(1, k) ==> validInformer(rm.relatedInformers[k]) && handlersOK(rm.relatedInformers[k].informerWrapper)
+//@   noexit loop 1 [C20,C18]
+
+//@ func NewCustomizeManager(name, enqueueParent, controller, dynClient, dynInformers, parentInformers, parentKinds, logger, controllerType) (rm, err)
+//@   requires controller != nil && enqueueParent != nil && dynClient != nil && dynClient.resources != nil && dynClient.dc != nil && factoryInv(dynInformers)
+//@   requires forall k schema.GroupVersionResource :: has(parentInformers, k) ==> validInformer(parentInformers[k])
+//@   safety C13,C20
+//@   ensures [C20,C15] err == nil ==> validRM(rm) && len(rm.relatedInformers) == 0
+//@   ensures [C20] err != nil ==> rm == nil
+//@   ensures [C20,C15] err == nil && controller.GetCustomizeHook() == nil ==> rm.customizeHook == nil
+
+//@ func Manager.Start(rm, stopCh) ()
+//@   requires rm != nil
+//@   safety C13
+//@   ensures [C20] rm.stopCh == stopCh
